@@ -183,4 +183,51 @@ def multiOk : List JoinDef → List JOp → List (List (List (Nat × Nat))) → 
 def multiObsTrace (js : List JoinDef) (ms : List JOp) : List (List (List (Nat × Nat))) :=
   (multiTrace (js.map (fun j => (j, init))) ms).map (fun row => row.map (fun out => out.map idPair))
 
+/-! ### joins that are unregistered and registered again on a live manager
+
+A column (one join's batches) is cut at that join's control calls into *lives*: every life is a
+run of a fresh join and must satisfy the single-join manager specification `mgrOkG` for the
+reference join of what arrived **during that life**; while the join is not registered, and during
+every control call, its handler receives nothing. -/
+
+/-- `registered`, the current life so far (calls and batches, newest first), the remaining calls
+and batches -/
+def livesOk (i : Nat) (j : JoinDef) :
+    Bool → List JOp → List (List (Nat × Nat)) → List COp → List (List (Nat × Nat)) → Bool
+  | reg, so, sb, [], [] => !reg || mgrOkG (routeJ j.l j.r) j.P so.reverse sb.reverse
+  | reg, so, sb, .op m :: cs, o :: os =>
+    if reg then livesOk i j true (m :: so) (o :: sb) cs os
+    else o.isEmpty && livesOk i j false [] [] cs os
+  | reg, so, sb, .unreg k :: cs, o :: os =>
+    o.isEmpty &&
+      (if k = i then (!reg || mgrOkG (routeJ j.l j.r) j.P so.reverse sb.reverse) && livesOk i j false [] [] cs os
+       else livesOk i j reg so sb cs os)
+  | reg, so, sb, .reg k :: cs, o :: os =>
+    o.isEmpty && (if k = i then livesOk i j true [] [] cs os else livesOk i j reg so sb cs os)
+  | _, _, _, _, _ => false
+
+/-- `multiOk` with control calls: one batch per registered join and call; every join's column is
+fine life by life -/
+def multiOkC : Nat → List JoinDef → List COp → List (List (List (Nat × Nat))) → Bool
+  | _, [], cs, obs => obs.length == cs.length && obs.all (·.isEmpty)
+  | i, j :: js, cs, obs =>
+    match heads obs with
+    | some col => livesOk i j true [] [] cs col && multiOkC (i + 1) js cs (tails obs)
+    | none => false
+
+def idxFrom {α : Type} : Nat → List α → List (Nat × α)
+  | _, [] => []
+  | i, x :: xs => (i, x) :: idxFrom (i + 1) xs
+
+def multiObsTraceC (js : List JoinDef) (cs : List COp) : List (List (List (Nat × Nat))) :=
+  (multiTraceC ((idxFrom 0 js).map (fun x => (x.1, x.2, some init))) cs).map
+    (fun row => row.map (fun out => out.map idPair))
+
+/-- the control calls of every join alternate unregister, register, … from the registered state -/
+def ctlValid (i : Nat) : Bool → List COp → Bool
+  | _, [] => true
+  | reg, .op _ :: cs => ctlValid i reg cs
+  | reg, .unreg k :: cs => if k = i then reg && ctlValid i false cs else ctlValid i reg cs
+  | reg, .reg k :: cs => if k = i then !reg && ctlValid i true cs else ctlValid i reg cs
+
 end C14
